@@ -49,14 +49,16 @@ NAMES = ["a.zo", "s/b.zo"]
 # allocations start from an empty or a used counter independently of them)
 def _texts(j):
     return [None, "# t\n\n- 24010%d#01 one\n" % (j + 1), "# t\n\n- 24010%d#01 two\n" % (j + 1), "# t\n\n- fresh%d\n" % j,
-            "# t\n\n- 240509#0%d fresh%d\n" % (j, j)]
+            "# t\n\n- 240509#0%d fresh%d\n" % (j, j),
+            # an edited note AND a new ZID-less note on one page: two write-backs are queued for it
+            "# t\n\n- 24010%d#01 two\n- fresh%d\n" % (j + 1, j)]
 
 
 TEXTS = [_texts(0), _texts(1)]
-FILE_STATES = [0, 1, 2, 3]            # indices into TEXTS[j]: absent, v1, v2, vn
+FILE_STATES = [0, 1, 2, 3, 5]         # indices into TEXTS[j]: absent, v1, v2, vn, v2 + vn
 INDEX_STATES = [0, 1, 2, 4]           # absent, v1, v2, vnz
 HASH_STATES = [0, 1, 2, 4]
-MAXK = 20                                # more than the effects of any run in this model (condition `effects`)
+MAXK = 40                                # more than the effects of any run in this model (condition `effects`)
 
 
 def bodies(text):
@@ -215,7 +217,7 @@ def invariant_state(f, i, h):
     return INDEX_STATES[i] == HASH_STATES[h]
 
 
-VALID = [(f, i, h) for f in range(4) for i in range(4) for h in range(4) if invariant_state(f, i, h)]
+VALID = [(f, i, h) for f in range(len(FILE_STATES)) for i in range(4) for h in range(4) if invariant_state(f, i, h)]
 PIN_S0 = os.environ.get("XH_S0", "")
 
 
